@@ -340,7 +340,10 @@ def full_value(draw, ctr, depth=0, allow_structural=True, scalars=None):
         _maybe_anchor(draw, node, ctr)
         return node
     if c <= 6:
-        return draw(special_leaf(ctr, allow_structural=allow_structural))
+        node = draw(special_leaf(ctr, allow_structural=allow_structural))
+        if len(ctr) > 2 and node['t'] in ('map', 'seq') and str(node.get('tag', '')).startswith(('!call', '!bind', '!path')):
+            _maybe_anchor(draw, node, ctr)      # function / path nodes re-used through an alias (aliases='all')
+        return node
     node = tdoc.sc(draw(scalars if scalars is not None else SIMPLE_SCALARS), q=draw(QUOTES))
     if node['v'] is None and draw(st.booleans()):
         node = {'t': 'empty'}
@@ -350,7 +353,7 @@ def full_value(draw, ctr, depth=0, allow_structural=True, scalars=None):
 
 @st.composite
 def full_doc(draw, allow_structural=True, scalars=None, min_keys=1, aliases=False):
-    ctr = [0, 0] if aliases else [0]
+    ctr = [0, 0, 1] if aliases == 'all' else [0, 0] if aliases else [0]
     n = draw(st.integers(min_keys, 4))
     keys = draw(st.lists(MERGE_KEYS_NONEG.filter(lambda k: isinstance(k, str)), min_size=n, max_size=n, unique=True))
     root = tdoc.mp([(k, draw(full_value(ctr, 1, allow_structural, scalars))) for k in keys])
